@@ -1,5 +1,6 @@
 """C05 — first-class continuations: escape, re-entry and cross-evaluation invocation."""
 from pipeline import *
+from collections import Counter
 
 META = {
     "text": "Lean 4 theorems about the models of call/cc (builtin/procedure.rs), continuation invocation in CALL/TCALL "
@@ -32,8 +33,9 @@ META = {
             "returned v' is the statement 'continues as the machine does from Resume s0 v h'; the compiler model is "
             "shown to emit for (call/cc e) exactly <code of e>; PUSH; PUSHIMM argc 1; <operator>; CALL|TCALL "
             "(compile_callcc_site, T01.4 for one operand), which places s0/Resume in compiled code, but that running "
-            "<code of e> yields e's value (compiler correctness beyond C01's stage 1) and a CPS definitional semantics "
-            "with its simulation are NOT proved. Hypotheses, all explicit "
+            "<code of e> yields e's value for programs WITH call/cc (compiler correctness beyond C01's stages, i.e. a simulation "
+            "between the machine model and the CPS semantics below) is NOT proved: the source-level semantics Spec.EvalK "
+            "(see the last paragraph) is tied to the implementation by the random-program stream only. Hypotheses, all explicit "
             "parameters (none an axiom): CodeLaws (generic heap: code objects immutable and accepted by the bytecode "
             "verifier, continuations are snapshots of WF states; checked by C04's bytecode-verifier stream) for the "
             "WF-stack theorems; for step_live_congruence / the run theorems additionally LiveLaws (CLOSURE's and ENTER's "
@@ -120,13 +122,131 @@ def streams(ctx):
     settle(ctx, md, sd)
 
 
+# ---------------------------------------------------------------- random programs judged by the CPS specification
+def _dec(t):
+    if t == "-":
+        return ""
+    try:
+        return "".join(chr(int(x)) for x in t.split(","))
+    except ValueError:
+        return ""
+
+
+def _k_forms(req):
+    """the form texts of a `spec-evalk <steps> D:<distribution> <text>…` request"""
+    w = req.split(" ")
+    return [_dec(t) for t in w[3:]] if len(w) >= 3 and w[0] == "spec-evalk" else []
+
+
+def _k_tags(req):
+    w = req.split(" ")
+    out = {}
+    if len(w) >= 3 and w[2].startswith("D:"):
+        for kv in w[2][2:].split(";"):
+            k, _, v = kv.partition("=")
+            if k and v.isdigit():
+                out[k] = int(v)
+    return out
+
+
+def correspond_cps(ctx, stream, cases):
+    """real VM vs Spec.EvalK (CPS definitional interpreter with first-class continuations), form by form.
+    The request is answered once by the driver; impl != spec is a failing input of C05. A session for which the
+    specification runs out of steps (`timeout`) gives no verdict and is counted."""
+    st = ctx.streams.setdefault(stream, {"cases": 0, "model_disagree": 0, "spec_disagree": 0,
+                                         "bad_op": 0, "impl_panic": 0, "impl_err": 0})
+    answers = driver_batch_sharded([c[0] for c in cases])
+    dist, sd = Counter(st.get("distribution", {})), []
+    forms_n, noverdict, form_err = 0, 0, Counter(st.get("form_errors", {}))
+    for i, ((req, impl, _), spec) in enumerate(zip(cases, answers)):
+        st["cases"] += 1
+        ctx.evaluations += 1
+        tags = _k_tags(req)
+        dist.update(tags)
+        res = impl.split(" || ")[0].split(" | ")
+        forms_n += len(res)
+        for r in res:
+            if r.startswith("err "):
+                form_err[r[4:]] += 1
+        if "panic" in impl:
+            st["impl_panic"] += 1
+        if any(r.startswith("err") for r in res):
+            st["impl_err"] += 1
+        if spec == "bad-op":
+            st["bad_op"] += 1
+        nt = tags.get("dyn.captures", 0) > 0 or "call/cc" in " ".join(_k_forms(req))
+        if nt:
+            ctx.nontrivial.add(hashlib.blake2b(req.encode(), digest_size=8).digest())
+        if len(ctx.samples) < 6 and nt and (i % max(1, len(cases) // 2) == 0):
+            ctx.samples.append({"stream": stream, "session": [f for f in _k_forms(req) if "call/cc" in f or "call-with" in f][:3],
+                                "impl": impl[-300:], "spec": spec[-300:]})
+        if "timeout" in spec and spec != "bad-op":
+            noverdict += 1
+            continue
+        if impl != spec:
+            st["spec_disagree"] += 1
+            a, b = impl.split(" || ")[0].split(" | "), spec.split(" || ")[0].split(" | ")
+            first = next((j for j, (x, y) in enumerate(zip(a, b)) if x != y), None)
+            fs = _k_forms(req)
+            sd.append({"stream": stream, "request": req, "impl": impl, "model": spec, "spec_request": req, "spec": spec,
+                       "first_differing_form": None if first is None else {"index": first, "form": fs[first] if first < len(fs) else None,
+                                                                           "impl": a[first], "spec": b[first]},
+                       "session": fs})
+    st["forms"] = st.get("forms", 0) + forms_n
+    st["spec_no_verdict"] = st.get("spec_no_verdict", 0) + noverdict
+    st["form_errors"] = dict(form_err)
+    st["distribution"] = dict(sorted(dist.items()))
+    return [], sd
+
+
+def streams_cps(ctx):
+    name = "callcc-grammar-vs-cps-spec"
+    cases = gen_cases("contk", ["corpus"], ctx.seed)
+    md, sd = correspond_cps(ctx, name, cases)
+    settle(ctx, md, sd)
+    if ctx.quick():
+        cases = gen_cases("contk", ["sessions", 1200], ctx.seed)
+    else:
+        cases = gen_cases_sharded("contk", ["sessions", 5000], ctx.seed, 8)
+    md, sd = correspond_cps(ctx, name, cases)
+    settle(ctx, md, sd)
+    st = ctx.streams.get(name, {})
+    d = st.get("distribution", {})
+    grp = lambda pre: ", ".join("%s=%d" % (k[len(pre):], v) for k, v in d.items() if k.startswith(pre))
+    ctx.notes.append(
+        "%s: %d sessions, %d top-level forms (%d with a call/cc expression, %d with a re-entry site), %d sessions without verdict "
+        "(specification out of steps); capture sites %d by position: %s; escape sites %d: %s; re-entry sites %d: %s; stores: %s; "
+        "mutations between capture and invocation: %s; DYNAMIC (read back from the programs' own counters on the real VM): "
+        "captures performed %d, escapes performed %d, re-entries within the capturing form %d, re-entries from a later top-level form %d; "
+        "re-entry sites invoked 0/1/2/3 times: %d/%d/%d/%d; patterns: %s (every third session is run a second time with a "
+        "collection forced after every form and at 24 random instruction counts: %d such runs; their counts are included twice)" % (
+            name, st.get("cases", 0), st.get("forms", 0), d.get("forms.with-callcc", 0), d.get("forms.with-reentry-site", 0),
+            st.get("spec_no_verdict", 0), d.get("cap.sites", 0), grp("cap."), d.get("inv.escape", 0), grp("inv.escape."),
+            d.get("inv.reentry", 0), grp("inv.reentry."), grp("store."), grp("mut."),
+            d.get("dyn.captures", 0), d.get("dyn.escapes", 0), d.get("dyn.reentry-same-form", 0), d.get("dyn.reentry-cross-form", 0),
+            d.get("dyn.site-invoked-0x", 0), d.get("dyn.site-invoked-1x", 0), d.get("dyn.site-invoked-2x", 0),
+            d.get("dyn.site-invoked-3x", 0), grp("pattern."), d.get("sessions.under-forced-gc", 0)))
+
+
+def _streams_all(ctx):
+    streams(ctx)
+    streams_cps(ctx)
+
+
 def run(ctx):
     return standard_run(
-        ctx, MODULE, THEOREMS, ["vm"], streams,
+        ctx, MODULE, THEOREMS, ["vm", "contk"], _streams_all,
         rule="nine scenario families x random values/depths, each form's value or failure class against its closed-form "
              "expectation; every instruction of those sessions and of generic generated sessions (which place call/cc "
              "at operand and tail positions and store k in globals for re-entry from later forms) replayed through the "
-             "Lean model of run_one; non-trivial = continuation capture/invocation steps, forms containing call/cc")
+             "Lean model of run_one; non-trivial = continuation capture/invocation steps, forms containing call/cc; "
+             "stream callcc-grammar-vs-cps-spec: RANDOM sessions of a grammar with call/cc at operand / tail / nested / callback / "
+             "loop positions, k stored in globals, vector and pair slots and closures, escapes (from the receiver, deep recursion, "
+             "named-let loops, map / for-each callbacks, to outer continuations) and counter-guarded re-entries (0-3 times per site; "
+             "same form = generators and re-entered map callbacks, later top-level forms, loops, callbacks, procedure bodies, "
+             "inside other receivers), traced operands before the capture, set! / set-car! / set-cdr! / vector-set! between capture "
+             "and invocation, every sixth session with injected failures: real Vm form by form vs Spec.EvalK (the CPS definitional "
+             "interpreter with first-class continuations; value datum or error class at R7RS granularity, output log)")
 
 
 # ROUND 8: the Ext laws are theorems for a table of real builtins (lib/props/procinv_util.py, Lemmas/ListExtC05.lean)
@@ -134,3 +254,67 @@ import procinv_util as _pv8
 MODULE = _pv8.listext_module("C05")
 THEOREMS = THEOREMS + [t for t in _pv8.LISTEXT_LAWS + _pv8.LISTEXT["C05"] if t not in THEOREMS]
 META["note"] = META["note"] + _pv8.LISTEXT_NOTE
+
+
+# SOURCE-LEVEL SPECIFICATION: Spec.EvalK, a CPS definitional interpreter with first-class continuations
+THEOREMS = THEOREMS + [
+    "Marwood.Proofs.C05.runK_fuel_mono",
+    "Marwood.Proofs.C05.callcc_normal_return",
+    "Marwood.Proofs.C05.throw_discards_context",
+    "Marwood.Proofs.C05.throw_result_independent_of_context",
+    "Marwood.Proofs.C05.mutations_survive_throw",
+    "Marwood.Proofs.C05.operands_evaluated_before_capture_are_kept",
+    "Marwood.Proofs.C05.reentry_any_number_of_times",
+    "Marwood.Proofs.C05.evalK_machine_simulates_eval",
+    "Marwood.Proofs.C05.evalK_agrees_with_eval",
+    "Marwood.Lemmas.EvalK.callcc_captures",
+    "Marwood.Lemmas.EvalK.runK_deterministic",
+    "Marwood.Lemmas.EvalK.operands_kept_last",
+    "Marwood.Lemmas.EvalK.step_ks_mono",
+    "Marwood.Lemmas.EvalK.iterK_ks_mono",
+    "Marwood.Lemmas.EvalK.captured_stays",
+    "Marwood.Lemmas.EvalKAgree.simRec_evalN",
+    "Marwood.Lemmas.EvalKAgree.apply_agrees",
+    "Marwood.Lemmas.EvalKAgree.top_agrees",
+    "Marwood.Lemmas.EvalKAgree.runForm_agrees",
+    "Marwood.Lemmas.EvalKAgree.runNext_quiet",
+]
+META["text"] = META["text"] + (
+    " SOURCE LEVEL: a definitional interpreter with first-class continuations for the language of C01's specification "
+    "(Spec.EvalK: defunctionalised CPS machine, continuation = list of frames, call/cc appends the current continuation to an "
+    "append-only table and applies the receiver to a value denoting that entry in the SAME continuation, applying such a value "
+    "drops the current continuation and returns to the captured one on the CURRENT store; all values, store, primitives and error "
+    "classes imported from Spec.Eval) with theorems for each clause of the property (normal return = ordinary call; a throw "
+    "discards the context and the rest of the run is independent of it; the captured operand frame holds the operand values "
+    "computed before the capture; the store after a throw is the store at the throw; re-entry any number of times from any later "
+    "state; fuel monotonicity; without call/cc the machine simulates Spec.Eval on every form), and RANDOM programs of the property's "
+    "grammar run on the real Vm and judged form by form against it.")
+META["note"] = META["note"] + (
+    " SOURCE-LEVEL SPECIFICATION (replaces 'a CPS definitional semantics ... NOT proved'): lean/Marwood/Spec/EvalK.lean is a CPS "
+    "definitional interpreter for exactly the language of Spec.Eval plus call/cc / call-with-current-continuation. It IMPORTS "
+    "Spec.Eval's Val/St/Cell/Env, every primitive (applyPrim1), quoteVal, bindArgs, assignVar, ... so the two specifications cannot "
+    "drift; because Spec.Eval.Val may not be extended (C01's theorems are about it) a continuation VALUE is a reference into an "
+    "append-only table of continuations kept in the machine/session state (contVal i denotes ks[i], as a pair value denotes a store "
+    "cell), coded - like call/cc itself - as a closure with an EMPTY body, which no expression can create. Unspecified by R7RS and "
+    "taken from the implementation: (k) is an error, (k a b c) delivers c, (call/cc non-procedure) is an error, a continuation "
+    "captured in top-level form i and invoked from form j finishes form i again (incl. its define) and its value is the result of "
+    "form j. CLOSED THEOREMS about Spec.EvalK (no hypotheses beyond what the statement names): callcc_normal_return (capture is "
+    "one step to the ordinary application of the receiver in the same continuation and store; a normal return of v and an "
+    "invocation (k v) from any context are the same state) - NOT proved in the form 'k not free in e => (call/cc (lambda (k) e)) "
+    "evaluates as e' (that needs a weakening/location-shift simulation for the machine); throw_discards_context, "
+    "throw_result_independent_of_context, mutations_survive_throw (by definition of the machine, stated for every state), "
+    "operands_evaluated_before_capture_are_kept (+ operands_kept_last), reentry_any_number_of_times (from the append-only table: "
+    "step_ks_mono for all ~25 transition helpers), runK_fuel_mono / runK_deterministic. TIE TO C01'S SPECIFICATION: "
+    "evalK_machine_simulates_eval / simRec_evalN: the machine with call/cc switched off (step false) simulates Spec.Eval.evalN at "
+    "every fuel for EVERY form of its language (core forms, let/let*/letrec/named let, begin, cond incl. =>, case, and, or, when, "
+    "unless, delay/force, quasiquote incl. vectors and nesting, apply, eval, map, for-each, all primitives, top-level define/begin), "
+    "in any continuation, value/error class and final store alike (direction Eval => machine; results are unique by "
+    "runK_deterministic); evalK_agrees_with_eval: the machine with call/cc coincides with it on every run that applies neither "
+    "call/cc nor a continuation value (hypothesis Quiet, a property of the run). NOT proved: the syntactic sufficient condition "
+    "('call/cc does not occur in the program' => Quiet; needs an invariant 'no empty-body closure in the state' through all "
+    "primitives), and any simulation between the Vm model and Spec.EvalK. Non-vacuity: three kernel-evaluated tiny sessions "
+    "(escape, normal return, cross-form re-entry with an earlier operand and a later mutation). CORRESPONDENCE: stream "
+    "callcc-grammar-vs-cps-spec (harness/src/bin/contk.rs): the real Vm vs Spec.EvalK on random sessions, every third session "
+    "again with a collection forced after every form and at 24 random instruction counts; a specification 'timeout' (no outcome "
+    "within 400000 machine steps per form) is 'no verdict' and counted (0 so far). Each of the six seeded changes of C05 "
+    "(seeded/C05-1, C05-2, C05b-1, C05b-2, C05c-1, C05c-2) is caught by this stream alone.")
